@@ -219,11 +219,10 @@ def pickOK (st : MState) (picked : List Nat) : Bool :=
 
 /-! ### Restart -/
 
-/-- Clean reopen: the side files keep `Full`, except that an empty segment's meta is not read. -/
+/-- Clean reopen: the side files keep `Full` (since fix F13 also for an empty segment). -/
 def reopenClean (st : MState) : MState :=
-  let segs := st.segs.map fun s => if s.data.isEmpty then { s with full := false } else s
-  let maxSeq := segs.foldl (fun m s => max m s.seq) 0
-  ({ st with segs := segs, maxSeq := maxSeq, cur := none } : MState).swapSegment
+  let maxSeq := st.segs.foldl (fun m s => max m s.seq) 0
+  ({ st with maxSeq := maxSeq, cur := none } : MState).swapSegment
 
 def sortBySeq (segs : List MSeg) : List MSeg :=
   segs.foldl (fun acc s =>
